@@ -884,6 +884,9 @@ pub enum PVal {
     F32(u32),
     F64(u64),
     Bytes(Vec<u8>),
+    /// a byte string whose length prefix is not the shortest one: the given first byte (0xfc: two
+    /// length bytes, 0xfd: three, 0xfe: eight) whatever the length - legal, the first byte decides
+    BytesWide(Vec<u8>, u8),
     /// y, m, d, h, mi, s, us, length form (0, 4, 7, 11)
     Date(u16, u8, u8, u8, u8, u8, u32, u8),
     /// neg, days, h, m, s, us, length form (0, 8, 12)
@@ -912,6 +915,16 @@ pub fn put_param_value(out: &mut Vec<u8>, p: &Param) {
         PVal::F32(b) => out.extend_from_slice(&b.to_le_bytes()),
         PVal::F64(b) => out.extend_from_slice(&b.to_le_bytes()),
         PVal::Bytes(b) => put_lenenc_bytes(out, b),
+        PVal::BytesWide(b, first) => {
+            out.push(*first);
+            let n = match *first {
+                0xfc => 2,
+                0xfd => 3,
+                _ => 8,
+            };
+            out.extend_from_slice(&(b.len() as u64).to_le_bytes()[..n]);
+            out.extend_from_slice(b);
+        }
         PVal::Date(y, m, d, h, mi, s, us, form) => {
             out.push(*form);
             if *form >= 4 {
